@@ -34,8 +34,9 @@ structure Opts where
   skipDefaultValues : Bool := false
 deriving DecidableEq, Repr, Inhabited
 
-/-- `(*Options).clone`: the composite literal lists every boolean field but `SkipDefaultValues` (zero value) -/
-def clone (o : Opts) : Opts := { o with skipDefaultValues := false }
+/-- `(*Options).clone`: the composite literal lists every boolean field (since `fix: options cloned for an included (or
+extended) load keep SkipDefaultValues and SkipResolveEnvironment`; before it `SkipDefaultValues` was left at its zero value) -/
+def clone (o : Opts) : Opts := o
 
 /-- boolean writes after the clone, as `(Go field, value)` in source order; `applyWrite` interprets them -/
 def includeWrites : List (String × String) :=
